@@ -20,6 +20,7 @@ from vsc.model.expr_bin_model import ExprBinModel
 from vsc.model.expr_cond_model import ExprCondModel
 from vsc.model.expr_partselect_model import ExprPartselectModel
 from vsc.model.expr_in_model import ExprInModel
+from vsc.model.expr_indexed_dynref_model import ExprIndexedDynRefModel
 from vsc.model.expr_range_model import ExprRangeModel
 from vsc.model.expr_rangelist_model import ExprRangelistModel
 from vsc.model.expr_unary_model import ExprUnaryModel
@@ -216,6 +217,16 @@ class ConstraintCopyBuilder(ModelVisitor):
             self._expr = e
         else:
             super().visit_expr_indexed_fieldref(e)
+            
+    def visit_expr_indexed_dynref(self, e):
+        if self.do_copy_level > 0:
+            # The reference to the dynamic constraint stays a reference. 
+            # The object it is reached through is resolved in the copy 
+            self._expr = ExprIndexedDynRefModel(
+                self.expr(e.root),
+                e.idx)
+        else:
+            super().visit_expr_indexed_dynref(e)
             
     def visit_expr_range(self, r):
         if self.do_copy_level > 0:
